@@ -989,6 +989,11 @@ class Worker:
                 viol.append(("wrong-effect:proc_cpu_affinity_set:cpu-number-truncated",
                              "proc_cpu_affinity_set(child, %r) succeeded and the kernel mask is now %r" % (args[1], sorted(got))))
             os.sched_setaffinity(self.child, os.sched_getaffinity(0))
+        if out[0] == "ok" and fn == "linux.net_if_duplex_speed" and len(args) == 1 and isinstance(args[0], str) \
+                and args[0] not in set(IFNAMES.values()) and args[0] not in os.listdir("/sys/class/net"):
+            # the kernel has no such interface (ENODEV): there is no duplex / speed to report for it
+            viol.append(("wrong-value:net_if_duplex_speed:answers-for-an-interface-that-does-not-exist",
+                         "net_if_duplex_speed(%r) -> %r although no such interface exists" % (args[0][:40], v)))
         key = "%s(%s)->%s" % (fn, ",".join(shape(t) for t in case["args"]) + (",kw" if case.get("kw") else ""),
                               ":".join(out))
         return {"out": out, "viol": viol, "key": key}
@@ -999,8 +1004,13 @@ class Worker:
         if case.get("nofile"):
             if os.path.exists(self.utmp):
                 os.unlink(self.utmp)
-        else:
+        elif len(case["recs"]) % 2:
             self.write(self.utmp, data)
+        else:
+            # the accounting file is REPLACED (written aside, renamed over: logrotate, a container runtime binding another file):
+            # a later call reads the file that is there now, not a descriptor an earlier call may have kept
+            self.write(self.utmp + ".new", data)
+            os.replace(self.utmp + ".new", self.utmp)
         self.world_dirty = True
         exp = ref_users(b"" if case.get("nofile") else data)
         viol = []
